@@ -77,6 +77,8 @@ def check(ctx, case, k=3, max_nodes=1500):
                         break
                     cur = nxt
             trig = sorted(flags & {"add_after_delete", "conflict", "accumulate"})
+            if blamed == "disjunctive" and comp.disjunctive_incdec_trigger(case["problem"]):
+                trig.append("split-conditional-increase")
             if blamed == "trajectory" and _nonconst_bool_value(case["problem"]):
                 trig.append("nonconst-bool-value")
             raise Violation(
